@@ -1201,3 +1201,4 @@ def c14_14(ctx: Ctx) -> RuleResult:
         i.rule = "C14.14"
     r.rule, r.title = "C14.14", "a nested optimization that yields no result ends the step with NESTED_OPTIMIZER_FAILED / USER_ABORT, never with an internal exception"
     return r
+
